@@ -92,7 +92,7 @@ def vttRep (s : Subs) : Bool :=
     attrsOk it.attrs ["WebVTTAlign", "WebVTTLine", "WebVTTPosition", "WebVTTSize", "WebVTTVertical"] &&
     attrsOk (VTT.styleAttrs s it.style) ["WebVTTAlign", "WebVTTLine", "WebVTTPosition", "WebVTTSize", "WebVTTVertical"] &&
     (match it.region with | some r => plainValue r && s.regions.any (·.id = r) | none => true) &&
-    (it.comments.all fun c => trimSpace c = c && c ≠ [] && plainText c && !hasPrefix "NOTE ".toList c) &&
+    (it.comments.all fun c => trimSpace c = c && c ≠ [] && plainText c && !hasPrefix "NOTE ".toList c && c ≠ "NOTE".toList) &&
     !it.lines.isEmpty && it.lines.all fun l =>
       (l.voice = trimSpace l.voice && !(l.voice.any fun c => c = '<' || c = '>' || c = '&' || c = '/' || c = '=' || c = '"' || c = '\'' || c = '\n' || c = '\r') &&
         !hasSuffix "--".toList l.voice) &&
@@ -105,6 +105,8 @@ def vttRep (s : Subs) : Bool :=
        | _, _ => true) &&
       l.items.all fun li =>
         trimSpace li.text ≠ [] && plainText li.text && decide (0 ≤ li.startAt) && decide (li.startAt < hour100) &&
+        -- an in-cue instant below the millisecond is written as <00:00:00.000>, which is "no instant" to the library
+        (li.startAt == 0 || decide (1000000 ≤ li.startAt)) &&
         attrsOk li.attrs [] &&
         (VTT.tagsOfAttrs li.attrs).all fun t =>
           t.name ≠ [] && t.name ≠ "v".toList && (t.name.all fun c => c.isAlphanum || c = '_') && (t.name.head?.map Char.isAlpha) == some true &&
@@ -114,16 +116,26 @@ def vttRep (s : Subs) : Bool :=
           !hasSuffix "--".toList t.annotation && !hasSuffix "--".toList (t.classes.getLast?.getD []) &&
           -- names the HTML tokenizer treats as raw text elements are outside its model
           !(Go.rawTags.contains (String.ofList (Go.toLowerAscii t.name)))) &&
+  -- region identifiers are the keys of a map
+  (s.regions.map (·.id)).eraseDups.length == s.regions.length &&
   (s.regions.all fun d => plainValue d.id &&
+    -- the number of lines is an int in the library: canonical decimal, and 0 means unset
+    (match SRT.kvGet d.attrs "WebVTTLines" with
+     | some v => (match atoi v with | some n => n ≠ 0 && itoa n == v | none => false)
+     | none => true) &&
     attrsOk d.attrs ["WebVTTLines", "WebVTTRegionAnchor", "WebVTTScroll", "WebVTTViewportAnchor", "WebVTTWidth"] &&
     attrsOk (VTT.styleAttrs s d.ref) ["WebVTTLines", "WebVTTRegionAnchor", "WebVTTScroll", "WebVTTViewportAnchor", "WebVTTWidth"]) &&
-  ((VTT.styleLines s).all fun l => trimSpace l = l && l ≠ [] && plainText l) &&
+  ((VTT.styleLines s).all fun l => trimSpace l = l && l ≠ [] && plainText l &&
+    -- a CSS line that looks like the start of another block ends the STYLE block (the library's dialect)
+    !(l = "NOTE".toList || hasPrefix "NOTE ".toList l || hasPrefix "Region: ".toList l || hasPrefix "STYLE".toList l ||
+      hasPrefix "X-TIMESTAMP-MAP".toList l)) &&
   ((VTT.styleLines s).getLast?.map (hasSuffix ['}'])) != some false &&
   (match SRT.kvGet s.metadata "WebVTTTimestampMap" with
    | some v => match splitC ',' v with
-     | [l, _] => match atoi l with
-       | some l => decide (0 ≤ l) && decide (l < hour100)
-       | none => false
+     | [l, m] => match atoi l, atoi m with
+       -- LOCAL is carried to the millisecond; MPEGTS is a non-negative tick count
+       | some l, some m => decide (0 ≤ l) && decide (l < hour100) && l % 1000000 == 0 && decide (0 ≤ m)
+       | _, _ => false
      | _ => false
    | none => true)
 
